@@ -1,5 +1,6 @@
 import MdVerif.Model.Topology
 import MdVerif.Proofs.TopoIdxLemmas
+import MdVerif.Model.TopoEdit
 /-!
 # C04 — topology transformations preserve atoms, residues, chains and bonds
 
@@ -440,3 +441,100 @@ example : isubset exI (fun _ => true) = exI :=
   c04_isubset_all exI (by decide) (by decide) (by decide) (by decide)
 
 end MdVerif.Topo
+
+/-! ## editing in place: `insert_atom(index=)` and `delete_atom_by_index` keep every atom's index equal to its position -/
+namespace MdVerif.TopoEdit
+
+theorem insertRaw_index_ok (t : ETop) (i uid : Nat) (hi : i ≤ t.atoms.length) (hok : IndexOk t) : IndexOk (insertRaw t i uid) := by
+  intro k a h
+  simp only [insertRaw, List.append_assoc] at h
+  have hlen : (t.atoms.take i).length = i := by simp [List.length_take, Nat.min_eq_left hi]
+  by_cases hk : k < i
+  · rw [List.getElem?_append_left (by omega)] at h
+    rw [List.getElem?_take] at h
+    simp only [hk, if_true] at h
+    exact hok k a h
+  · rw [List.getElem?_append_right (by omega)] at h
+    rw [hlen] at h
+    by_cases hk2 : k = i
+    · subst hk2; simp at h; subst h; rfl
+    · have : k - i = (k - i - 1) + 1 := by omega
+      rw [this] at h
+      simp only [List.cons_append, List.nil_append, List.getElem?_cons_succ, List.getElem?_map, List.getElem?_drop] at h
+      cases hx : t.atoms[i + (k - i - 1)]? with
+      | none => simp [hx] at h
+      | some b =>
+        simp only [hx, Option.map_some] at h
+        injection h with h; subst h
+        have := hok _ b hx
+        simp only [bump]; omega
+
+/-- **an accepted insertion keeps `atom(k).index = k` for every atom** -/
+theorem c04_insert_index_ok (t : ETop) (i uid : Nat) (t' : ETop) (hok : IndexOk t) (h : insertAt t i uid = some t') : IndexOk t' := by
+  unfold insertAt at h
+  split at h
+  · rename_i hi
+    injection h with h; subst h
+    exact insertRaw_index_ok t i uid hi hok
+  · cases h
+
+/-- **an accepted deletion keeps it too** -/
+theorem c04_delete_index_ok (t : ETop) (i : Nat) (t' : ETop) (hok : IndexOk t) (h : deleteAt t i = some t') : IndexOk t' := by
+  unfold deleteAt at h
+  cases ha : t.atoms[i]? with
+  | none => simp [ha] at h
+  | some a0 =>
+    simp only [ha] at h
+    injection h with h; subst h
+    have hi : i < t.atoms.length := (List.getElem?_eq_some_iff.mp ha).1
+    intro k a h
+    simp only at h
+    have hlen : (t.atoms.take i).length = i := by simp [List.length_take, Nat.min_eq_left (Nat.le_of_lt hi)]
+    by_cases hk : k < i
+    · rw [List.getElem?_append_left (by omega)] at h
+      rw [List.getElem?_take] at h
+      simp only [hk, if_true] at h
+      exact hok k a h
+    · rw [List.getElem?_append_right (by omega)] at h
+      rw [hlen] at h
+      simp only [List.getElem?_map, List.getElem?_drop] at h
+      cases hx : t.atoms[i + 1 + (k - i)]? with
+      | none => simp [hx] at h
+      | some b =>
+        simp only [hx, Option.map_some] at h
+        injection h with h; subst h
+        have := hok _ b hx
+        simp only [lower]; omega
+
+/-- a refused operation changes nothing, so **every history of insertions and deletions keeps the indices right** -/
+theorem c04_edit_history_index_ok (ops : List EOp) : ∀ (t : ETop), IndexOk t → IndexOk (runE t ops) := by
+  induction ops with
+  | nil => intro t h; exact h
+  | cons op ops ih =>
+    intro t h
+    simp only [runE]
+    apply ih
+    cases hs : stepE t op with
+    | none => simpa using h
+    | some t' =>
+      simp only [Option.getD_some]
+      cases op with
+      | ins i uid => exact c04_insert_index_ok t i uid t' h hs
+      | del i => exact c04_delete_index_ok t i t' h hs
+
+/-- **why the index must be checked** (repair b5d87905): the unchecked insertion at a position beyond the end leaves an atom whose index is
+not its position -/
+theorem c04_insert_outside_witness :
+    (insertRaw ⟨[⟨0, 0⟩, ⟨1, 1⟩], []⟩ 5 9).atoms.map (·.index) = [0, 1, 5] ∧ insertAt ⟨[⟨0, 0⟩, ⟨1, 1⟩], []⟩ 5 9 = none := by
+  refine ⟨by decide, by decide⟩
+
+/-- a deletion removes exactly the bonds of the deleted atom -/
+theorem c04_delete_bonds (t : ETop) (i : Nat) (a : EAtom) (t' : ETop) (ha : t.atoms[i]? = some a) (h : deleteAt t i = some t') (b : Nat × Nat) :
+    b ∈ t'.bonds ↔ b ∈ t.bonds ∧ b.1 ≠ a.uid ∧ b.2 ≠ a.uid := by
+  unfold deleteAt at h
+  simp only [ha] at h
+  injection h with h; subst h
+  simp [List.mem_filter]
+
+end MdVerif.TopoEdit
+
